@@ -604,6 +604,105 @@ func genC12() {
 		g.def("service_bundle_command", "string", coqStr(cmd), "ic.Entrypoint.Command set by ValidateServiceBundle")
 	}
 
+	// ---- build.WithAnnotations: which side is written LAST into the map the build uses ----
+	{
+		const relOpt = "pkg/build/options.go"
+		const cfgMap, clMap = "bc.ic.Annotations", "annotations"
+		if fd := findFunc(relOpt, "", "WithAnnotations"); fd != nil {
+			writes := map[string][]string{cfgMap: {cfgMap}} // map expression -> sources written into it, in order
+			final := cfgMap
+			known := true
+			var walk func(list []ast.Stmt)
+			add := func(dst, src string) {
+				if _, ok := writes[dst]; !ok {
+					writes[dst] = nil
+				}
+				writes[dst] = append(writes[dst], writes[src]...)
+				if _, isMap := writes[src]; !isMap {
+					writes[dst] = append(writes[dst], src)
+				}
+			}
+			writes[clMap] = []string{clMap}
+			walk = func(list []ast.Stmt) {
+				for _, st := range list {
+					switch x := st.(type) {
+					case *ast.ReturnStmt:
+						if len(x.Results) == 1 {
+							if fl, ok := x.Results[0].(*ast.FuncLit); ok {
+								walk(fl.Body.List)
+							}
+						}
+					case *ast.IfStmt: // `if m == nil { m = make(...) }` allocations only
+						for _, b := range x.Body.List {
+							as, ok := b.(*ast.AssignStmt)
+							if !ok || len(as.Rhs) != 1 || !strings.HasPrefix(exprText(as.Rhs[0]), "make(") || x.Else != nil {
+								known = false
+							}
+						}
+					case *ast.RangeStmt:
+						src := exprText(x.X)
+						for _, b := range x.Body.List {
+							as, ok := b.(*ast.AssignStmt)
+							if !ok || len(as.Lhs) != 1 {
+								known = false
+								continue
+							}
+							ix, ok := as.Lhs[0].(*ast.IndexExpr)
+							if !ok || exprText(ix.Index) != exprText(x.Key) || exprText(as.Rhs[0]) != exprText(x.Value) {
+								known = false
+								continue
+							}
+							add(exprText(ix.X), src)
+						}
+					case *ast.AssignStmt:
+						if len(x.Lhs) != 1 || len(x.Rhs) != 1 {
+							known = false
+							continue
+						}
+						l, r := exprText(x.Lhs[0]), exprText(x.Rhs[0])
+						if ce, ok := x.Rhs[0].(*ast.CallExpr); ok && exprText(ce.Fun) == "maps.Clone" && len(ce.Args) == 1 {
+							writes[l] = nil
+							add(l, exprText(ce.Args[0]))
+						} else if _, isMap := writes[r]; isMap {
+							writes[l] = append([]string{}, writes[r]...)
+						} else if strings.HasPrefix(r, "make(") {
+							writes[l] = nil
+						} else {
+							known = false
+						}
+						_ = final
+					case *ast.ExprStmt:
+						if ce, ok := x.X.(*ast.CallExpr); ok && exprText(ce.Fun) == "maps.Copy" && len(ce.Args) == 2 {
+							add(exprText(ce.Args[0]), exprText(ce.Args[1]))
+						} else {
+							known = false
+						}
+					default:
+						known = false
+					}
+				}
+			}
+			walk(fd.Body.List)
+			ws := writes[cfgMap]
+			last := ""
+			for _, w := range ws {
+				if w == cfgMap || w == clMap {
+					last = w
+				}
+			}
+			seenCl := false
+			for _, w := range ws {
+				if w == clMap {
+					seenCl = true
+				}
+			}
+			if !known || !seenCl || last == "" {
+				fail("%s: WithAnnotations: cannot tell in which order %s and %s are written into the build's annotation map (writes: %v)", relOpt, cfgMap, clMap, ws)
+			}
+			g.def("annotations_cmdline_wins", "bool", fmt.Sprint(last == clMap), "build.WithAnnotations writes the command-line annotations AFTER the configuration's into the map the build uses (writes in order: "+strings.Join(ws, ", ")+")")
+		}
+	}
+
 	// does the copy BuildImageFromLayers works on carry VCSUrl?
 	{
 		const relCfg = "pkg/build/types/image_configuration.go"
